@@ -124,6 +124,10 @@ type Options struct {
 	Race      bool // race mode: skip Check, collect detector reports
 	ClaimDir  string
 	POR       bool // sleep-set partial-order reduction (requires Bound == -1)
+	// MaxExecPerCfg caps the executions spent on one configuration (0: none), so that a time budget
+	// is spread over all configurations instead of being used up by the first ones; a configuration
+	// that hits the cap makes the pass non-exhaustive.
+	MaxExecPerCfg int64
 }
 
 // Violation is a failing execution with its replayable choice list.
@@ -136,33 +140,34 @@ type Violation struct {
 
 // Result of one exploration pass.
 type Result struct {
-	Harness      string         `json:"harness"`
-	Bound        int            `json:"bound"`
-	DevBound     int            `json:"dev_bound"`
-	Cache        bool           `json:"cache"`
-	Shard        int            `json:"shard"`
-	NShards      int            `json:"nshards"`
-	Executions   int64          `json:"executions"`
-	Transitions  int64          `json:"transitions"`
-	States       int64          `json:"states"`
-	CacheHits    int64          `json:"cache_hits"`
-	MaxDepth     int            `json:"max_depth"`
-	MaxThreads   int            `json:"max_threads"`
-	Outcomes     map[string]int `json:"outcomes"`
-	NOutcomes    int            `json:"n_outcomes"`
-	Exhaustive   bool           `json:"exhaustive"`
-	StopReason   string         `json:"stop_reason,omitempty"`
-	Violations   []Violation    `json:"violations"`
-	SigCounts    map[string]int `json:"sig_counts"`
-	WallS        float64        `json:"wall_s"`
-	Samples      [][]string     `json:"samples,omitempty"`
-	RaceErrors   int            `json:"race_errors"`
-	StepLimited  int64          `json:"step_limited"`
-	CutEarly     int64          `json:"cut_early"`
-	SleepBlocked int64          `json:"sleep_blocked"`
-	POR          bool           `json:"por"`
-	ShardMode    string         `json:"shard_mode,omitempty"`
-	Configs      int            `json:"configs,omitempty"`
+	Harness       string         `json:"harness"`
+	Bound         int            `json:"bound"`
+	DevBound      int            `json:"dev_bound"`
+	Cache         bool           `json:"cache"`
+	Shard         int            `json:"shard"`
+	NShards       int            `json:"nshards"`
+	Executions    int64          `json:"executions"`
+	Transitions   int64          `json:"transitions"`
+	States        int64          `json:"states"`
+	CacheHits     int64          `json:"cache_hits"`
+	MaxDepth      int            `json:"max_depth"`
+	MaxThreads    int            `json:"max_threads"`
+	Outcomes      map[string]int `json:"outcomes"`
+	NOutcomes     int            `json:"n_outcomes"`
+	Exhaustive    bool           `json:"exhaustive"`
+	StopReason    string         `json:"stop_reason,omitempty"`
+	Violations    []Violation    `json:"violations"`
+	SigCounts     map[string]int `json:"sig_counts"`
+	WallS         float64        `json:"wall_s"`
+	Samples       [][]string     `json:"samples,omitempty"`
+	RaceErrors    int            `json:"race_errors"`
+	StepLimited   int64          `json:"step_limited"`
+	CutEarly      int64          `json:"cut_early"`
+	SleepBlocked  int64          `json:"sleep_blocked"`
+	POR           bool           `json:"por"`
+	ShardMode     string         `json:"shard_mode,omitempty"`
+	ConfigsCapped int            `json:"configs_capped"`
+	Configs       int            `json:"configs,omitempty"`
 }
 
 var findOutcome = os.Getenv("VERIF_FIND")
@@ -181,6 +186,7 @@ type explorer struct {
 	res    *Result
 	cache  map[uint64]uint16 // state key -> min (preemptions<<8 | deviations) seen; only dominated entries prune
 	stop   bool
+	capped int
 	nodeNo int64
 	curPre int // preemptions used by the current run up to the point being decided (maintained in cacheFn)
 }
@@ -659,7 +665,8 @@ func Explore(h *Harness, opt Options) *Result {
 			}
 		}
 	}
-	res.Exhaustive = !E.stop
+	res.Exhaustive = !E.stop && E.capped == 0
+	res.ConfigsCapped = E.capped
 	res.States = int64(len(E.cache))
 	res.NOutcomes = len(res.Outcomes)
 	res.WallS = time.Since(start).Seconds()
@@ -730,22 +737,23 @@ func Main(harnesses ...*Harness) {
 		return
 	}
 	var a struct {
-		Harness  string            `json:"harness"`
-		Mode     string            `json:"mode"` // explore | replay
-		Bound    int               `json:"bound"`
-		DevBound int               `json:"dev_bound"`
-		Cache    bool              `json:"cache"`
-		Shard    int               `json:"shard"`
-		NShards  int               `json:"nshards"`
-		BudgetS  float64           `json:"budget_s"`
-		MaxExec  int64             `json:"max_exec"`
-		Cfg      map[string]string `json:"cfg"`
-		Choices  []int32           `json:"choices"`
-		Out      string            `json:"out"`
-		Race     bool              `json:"race"`
-		Repeat   int               `json:"repeat"`
-		ClaimDir string            `json:"claim_dir"`
-		POR      bool              `json:"por"`
+		Harness       string            `json:"harness"`
+		Mode          string            `json:"mode"` // explore | replay
+		Bound         int               `json:"bound"`
+		DevBound      int               `json:"dev_bound"`
+		Cache         bool              `json:"cache"`
+		Shard         int               `json:"shard"`
+		NShards       int               `json:"nshards"`
+		BudgetS       float64           `json:"budget_s"`
+		MaxExec       int64             `json:"max_exec"`
+		Cfg           map[string]string `json:"cfg"`
+		Choices       []int32           `json:"choices"`
+		Out           string            `json:"out"`
+		Race          bool              `json:"race"`
+		Repeat        int               `json:"repeat"`
+		ClaimDir      string            `json:"claim_dir"`
+		POR           bool              `json:"por"`
+		MaxExecPerCfg int64             `json:"max_exec_per_cfg"`
 	}
 	if err := json.Unmarshal([]byte(raw), &a); err != nil {
 		engineFail("bad VERIF_ARGS: %v", err)
@@ -786,7 +794,7 @@ func Main(harnesses ...*Harness) {
 		}
 		out = r
 	default:
-		opt := Options{Bound: a.Bound, DevBound: a.DevBound, Cache: a.Cache, Shard: a.Shard, NShards: a.NShards, MaxExec: a.MaxExec, Cfg: a.Cfg, Race: a.Race, ClaimDir: a.ClaimDir, POR: a.POR}
+		opt := Options{Bound: a.Bound, DevBound: a.DevBound, Cache: a.Cache, Shard: a.Shard, NShards: a.NShards, MaxExec: a.MaxExec, Cfg: a.Cfg, Race: a.Race, ClaimDir: a.ClaimDir, POR: a.POR, MaxExecPerCfg: a.MaxExecPerCfg}
 		if a.BudgetS > 0 {
 			opt.Deadline = time.Now().Add(time.Duration(a.BudgetS * float64(time.Second)))
 		}
